@@ -255,3 +255,44 @@ def check_debugf(toks, resp):
     norm = norm.replace(", 1)", ", 1)")
     ok = norm == exp or re.sub(r"\s+", "", norm) == re.sub(r"\s+", "", exp)
     return ("ok" if ok else "viol"), "debugf." + kind, s > 0, "%s (%s)" % (E.hexs(exp), exp)
+
+
+def native_width_cases(rng):
+    """[(D token, int token)]: Decimals whose value is the minimum / maximum (+-1) of an integer type, as integers
+    (scale 0) and with trailing zeros, paired with that type's -1, 1, 2, minimum and maximum: where a fast path that
+    drops to native-width arithmetic overflows (T::MIN / -1, T::MIN % -1, T::MIN * -1, T::MIN - 1, ...)."""
+    from ..oracle import M, P10, OP_INT_TYPES, INT_TYPES
+    from .. import gen as G
+    out = []
+    for ty in OP_INT_TYPES:
+        lo, hi = INT_TYPES[ty]
+        ivals = [v for v in (-1, 1, 2, lo, hi, -2, 10) if lo <= v <= hi]
+        for dv in (lo, lo + 1, lo - 1, hi, hi + 1, hi - 1, -hi, 0):
+            for s in (0, 0, rng.randrange(1, 19)):
+                c = dv * P10[s]
+                if abs(c) > M:
+                    continue
+                for iv in ivals:
+                    out.append((G.fD(c, s), G.fI(ty, iv)))
+    return out
+
+
+def pow2_products():
+    """[(D token, int token)]: coefficient +-2^a times an integer +-2^b of every type with a + b = 127 (the product is
+    exactly +-2^127: -2^127 fits an i128, +2^127 does not) and a + b = 126."""
+    from ..oracle import M, OP_INT_TYPES, INT_TYPES
+    from .. import gen as G
+    out = []
+    for ty in OP_INT_TYPES:
+        lo, hi = INT_TYPES[ty]
+        for b in range(0, 128):
+            for iv in (1 << b, -(1 << b)):
+                if not lo <= iv <= hi:
+                    continue
+                for tot in (127, 126):
+                    a = tot - b
+                    if a < 0 or a > 126:
+                        continue
+                    for cs in (1, -1):
+                        out.append((G.fD(cs * (1 << a), 0), G.fI(ty, iv)))
+    return out
